@@ -62,7 +62,9 @@ def main():
         if a.prop and prop != a.prop:
           continue
         cmd = [os.path.join(VERIF, 'check'), prop, a.tier, '--repo', scratch,
-               '--no-evidence', '--no-det', '--workers', str(a.workers)]
+               '--no-evidence', '--workers', str(a.workers)]
+        if prop != 'C16':   # for C16 cross-process determinism is the property
+          cmd += ['--no-det']
         runs = a.runs or m.get('runs', 0)
         if runs:
           cmd += ['--runs', str(runs)]
